@@ -1,6 +1,7 @@
 package main
 
 import (
+	"go/types"
 	"go/token"
 	"strings"
 
@@ -263,23 +264,74 @@ func runC15(c *Ctx) {
 					lock = in
 				}
 			})
+			// the admission step may be a helper shared by the entry points: it registers on the closed-flag-false edge
+			// under the mutex and reports success (nil) exactly on the paths that registered; the entry point goes on
+			// only on that nil edge
+			addHost := f.SSA
+			var admit *ssa.Call
+			if add == nil {
+				for _, cs := range c.Calls(f.SSA, Any()) {
+					sc := cs.In.Common().StaticCallee()
+					call, isCall := cs.In.(*ssa.Call)
+					if sc == nil || !isCall || sc.Pkg != f.SSA.Pkg || cs.Fn != f.SSA || len(sc.Blocks) == 0 {
+						continue
+					}
+					var a2, l2 ssa.Instruction
+					instrs(sc, func(in ssa.Instruction) {
+						if isCallTo(c, in, Call("sync.WaitGroup).Add", Field(expWG, Any()))) {
+							a2 = in
+						}
+						if isCallTo(c, in, Call("sync.Mutex).Lock", Field(expMu, Any()))) && l2 == nil {
+							l2 = in
+						}
+					})
+					if a2 == nil {
+						continue
+					}
+					add, lock, addHost, admit = a2, l2, sc, call
+				}
+			}
 			if add == nil {
 				c.Bad("C15.Q2-registration", key, f.SSA.Pos(), "explicit sync entry point does not register in the explicit-sync wait group: Close can return while it is running")
 				continue
+			}
+			if admit != nil {
+				// nil result ⇔ registered: every nil-returning exit of the helper is dominated by the Add, every other exit is not reached through it
+				okNil := true
+				for _, b := range addHost.Blocks {
+					ret, ok := b.Instrs[len(b.Instrs)-1].(*ssa.Return)
+					if !ok || len(ret.Results) == 0 {
+						continue
+					}
+					isNil := c.RetX(ret, len(ret.Results)-1).Op == "nil"
+					passes := add.Block() == b || add.Block().Dominates(b)
+					if isNil != passes {
+						okNil = false
+					}
+				}
+				c.Check(okNil, "C15.Q2-registration", key+" › admission helper reports what it did", admit.Pos(), "the admission helper returns nil exactly on the paths that registered", "the admission helper can return nil without having registered (or an error after registering): the entry point's Done and Close's Wait no longer match")
+				for _, h := range hcalls {
+					_, g := c.Guarded(h, EqNil(Is(c.E(admit))), true)
+					c.Check(g, "C15.Q2-registration", key+" › sync only when admitted", h.Pos(), "the sync is reached only on the admission helper's nil edge", "the sync can start although admission failed")
+				}
 			}
 			_, flagFalse := c.Guarded(add, Field(expFlag, Any()), false)
 			c.Check(flagFalse, "C15.Q2-registration", key+" › closed flag tested", add.Pos(), "Add on the closed-flag-false edge", "registration does not test the closed flag: a sync can start after shutdown drained the group")
 			// mutex held at Add: Lock precedes, and no Unlock between Lock and Add on the path (Unlock calls that precede Add must be in blocks not leading to Add)
 			held := lock != nil && Precedes(lock, add)
-			instrs(f.SSA, func(in ssa.Instruction) {
+			instrs(addHost, func(in ssa.Instruction) {
 				if isCallTo(c, in, Call("sync.Mutex).Unlock", Field(expMu, Any()))) && Precedes(in, add) {
 					held = false
 				}
 			})
 			c.Check(held, "C15.Q2-registration", key+" › under mutex", add.Pos(), "Add performed while the mutex that shutdown flips is held", "registration not atomic with the closed-flag test")
-			c.Check(done != nil && doneDeferred && Precedes(add, done), "C15.Q2-registration", key+" › deferred Done", add.Pos(), "Done deferred right after registration", "wait group not released on every exit (Done not deferred)")
+			var regPoint ssa.Instruction = add
+			if admit != nil {
+				regPoint = admit
+			}
+			c.Check(done != nil && doneDeferred && Precedes(regPoint, done), "C15.Q2-registration", key+" › deferred Done", add.Pos(), "Done deferred right after registration", "wait group not released on every exit (Done not deferred)")
 			for _, h := range hcalls {
-				c.Check(Precedes(add, h), "C15.Q2-registration", key+" › before sync", h.Pos(), "registration precedes the sync", "sync can start before registration")
+				c.Check(Precedes(regPoint, h), "C15.Q2-registration", key+" › before sync", h.Pos(), "registration precedes the sync", "sync can start before registration")
 			}
 		}
 	}
@@ -500,6 +552,61 @@ func c15Goroutines(c *Ctx) {
 						}
 						if _, ok := c.GuardedB(b, Bin("==", Extract("0", Is(sel)), Const(itoa(i))), true); ok {
 							witness = "returns on the closing signal"
+						}
+					}
+				}
+			}
+			// (b') the same through a step helper: the loop returns when the helper says "stop", and the helper says
+			// so (a constant true result) only in the event clause of its select, i.e. when the event channel is closed
+			if witness == "" {
+				for _, cs := range c.Calls(target, Any()) {
+					H := cs.In.Common().StaticCallee()
+					call, isCall := cs.In.(*ssa.Call)
+					if H == nil || !isCall || cs.Fn != target || H.Pkg != target.Pkg || len(H.Blocks) == 0 {
+						continue
+					}
+					for _, op := range c.BlockingOps(H) {
+						if op.Kind != "select" || op.Fn != H {
+							continue
+						}
+						i := op.CaseIndex(false, Field("inEvents", Any()))
+						if i < 0 {
+							continue
+						}
+						sel := c.E(op.In.(*ssa.Select))
+						for k := 0; k < H.Signature.Results().Len(); k++ {
+							if b, ok := H.Signature.Results().At(k).Type().Underlying().(*types.Basic); !ok || b.Kind() != types.Bool {
+								continue
+							}
+							nTrue, okTrue := 0, true
+							for _, hb := range H.Blocks {
+								ret, isRet := hb.Instrs[len(hb.Instrs)-1].(*ssa.Return)
+								if !isRet || len(ret.Results) <= k {
+									continue
+								}
+								v, isConst := boolConst(c.RetX(ret, k))
+								if !isConst {
+									okTrue = false
+									continue
+								}
+								if v {
+									nTrue++
+									if _, g := c.GuardedB(hb, Bin("==", Extract("0", Is(sel)), Const(itoa(i))), true); !g {
+										okTrue = false
+									}
+								}
+							}
+							if nTrue == 0 || !okTrue {
+								continue
+							}
+							for _, tb := range target.Blocks {
+								if _, isRet := tb.Instrs[len(tb.Instrs)-1].(*ssa.Return); !isRet {
+									continue
+								}
+								if _, g := c.GuardedB(tb, Extract(itoa(k), Is(c.E(call))), true); g {
+									witness = "returns when its step helper reports that the event channel is closed"
+								}
+							}
 						}
 					}
 				}
